@@ -64,4 +64,101 @@ theorem applyEdits_occurrence {d₁ x d₂ r : Bytes} (hx : ∃ c cs, x = c :: c
           rw [isCont_of_lt (neutral_facts (h2 z (List.mem_cons_self ..))).2.2.2]; rfl
     · intro b hb; exact isCont_of_lt (hr b hb)
 
+-- the CLI's variant table (case_model.rs, converted pair by pair) -------------------------------------------------------------
+
+theorem lookup_map_single (k : Bytes) : ∀ (m : List (Bytes × Bytes)),
+    (m.map (fun e => (e.1, [((none : Option Style), e.2)]))).lookup k = (m.lookup k).map (fun v => [(none, v)])
+  | [] => rfl
+  | e :: m => by
+    simp only [List.map_cons, List.lookup]
+    cases h : k == e.1 with
+    | true => simp
+    | false => simpa using lookup_map_single k m
+
+theorem lookup_filter_nonempty {k : Bytes} (hk : k ≠ []) : ∀ (m : List (Bytes × Bytes)),
+    (m.filter (fun e => !e.1.isEmpty)).lookup k = m.lookup k
+  | [] => rfl
+  | e :: m => by
+    by_cases he : e.1.isEmpty = true
+    · have hke : (k == e.1) = false := by
+        cases h : k == e.1 with
+        | false => rfl
+        | true =>
+          rw [beq_iff_eq] at h
+          rw [List.isEmpty_iff] at he
+          exact absurd (h.trans he) hk
+      simp only [List.filter_cons, he, Bool.not_true, Bool.false_eq_true, ↓reduceIte, List.lookup, hke]
+      exact lookup_filter_nonempty hk m
+    · simp only [List.filter_cons, he, Bool.not_false, ↓reduceIte, List.lookup]
+      cases h : k == e.1 with
+      | true => rfl
+      | false => exact lookup_filter_nonempty hk m
+
+theorem mem_keys_of_lookup {α} {k : Bytes} : ∀ {m : List (Bytes × α)} {v : α}, m.lookup k = some v → k ∈ m.map (·.1)
+  | [], _, h => by simp at h
+  | e :: m, v, h => by
+    simp only [List.lookup] at h
+    cases hk : k == e.1 with
+    | true => rw [beq_iff_eq] at hk; simp [hk]
+    | false => rw [hk] at h; exact List.mem_cons_of_mem _ (mem_keys_of_lookup h)
+
+theorem keys_insertIfAbsent {k : Bytes} (m : List (Bytes × Bytes)) (k' v : Bytes)
+    (h : k ∈ (insertIfAbsent m k' v).map (·.1)) : k ∈ m.map (·.1) ∨ k = k' := by
+  unfold insertIfAbsent at h
+  split at h
+  · exact Or.inl h
+  · simp only [List.map_append, List.map_cons, List.map_nil, List.mem_append, List.mem_singleton] at h
+    exact h
+
+theorem keys_buildMap_foldl {k : Bytes} : ∀ (rows m : List (Bytes × Bytes)),
+    k ∈ (rows.foldl (fun m e => insertIfAbsent m e.1 e.2) m).map (·.1) → k ∈ m.map (·.1) ∨ k ∈ rows.map (·.1)
+  | [], _, h => Or.inl h
+  | e :: rows, m, h => by
+    rcases keys_buildMap_foldl rows _ h with h' | h'
+    · rcases keys_insertIfAbsent m e.1 e.2 h' with h'' | h''
+      · exact Or.inl h''
+      · exact Or.inr (by simp [h''])
+    · exact Or.inr (List.mem_cons_of_mem _ h')
+
+/-- the CLI table of a term pair typed in boundary-visible styles, explicit style list, plural variants off:
+    its keys are renderings of the search words, and the rendering in an enabled boundary-visible style `st` maps to the
+    replacement words in `st` — whatever style the replacement was TYPED in -/
+theorem cli_map_words (hA : AcrOk A) (hS : AcrStable A) {ws_s ws_r : List Bytes} {sst rst st : Style}
+    (h2 : 2 ≤ ws_s.length) (hws : Words ws_s) (hwr : Words ws_r) (hNs : Neutral A ws_s) (hNr : Neutral A ws_r)
+    (hsst : sst ∈ V12) (hrst : rst ∈ V12)
+    (hUs : sst ∈ upperStyles → UpperSafe A ws_s) (hUr : rst ∈ upperStyles → UpperSafe A ws_r)
+    (styles : List Style) (sing plur : Bytes → Option Bytes) (hst : st ∈ styles) (hst12 : st ∈ V12) :
+    let vm := cliVariantMap A (some styles) false sing plur (toStyle A ws_s sst) (toStyle A ws_r rst)
+    (∀ k ∈ vm.keys, ∃ st', k = toStyle A ws_s st') ∧ toStyle A ws_s st ∈ vm.keys ∧
+      vm.get (toStyle A ws_s st) = some (toStyle A ws_r st) := by
+  intro vm
+  have hne : toStyle A ws_s st ≠ [] := by
+    obtain ⟨⟨c, cs, h, _⟩, _⟩ := render_ends A (ne_nil_of_two h2) hws st
+    rw [h]; simp
+  have hlk := variant_lookup (A := A) hA hS (styles := some styles) (plurals := false) (sing := sing) (plur := plur)
+    (isAmb := isAmbiguous A (toStyle A ws_s sst) Gen.allStyles) h2 hws hwr hNs hNr hsst hrst hUs hUr
+    (by simpa using hst) hst12 (fun _ _ m hm => absurd hm (by simp [variantModels])) (by simp)
+  have hvl : vm.lookup (toStyle A ws_s st) = some [(none, toStyle A ws_r st)] := by
+    show (List.map _ (List.filter _ _)).lookup _ = _
+    rw [lookup_map_single, lookup_filter_nonempty hne, hlk]; rfl
+  refine ⟨?_, mem_keys.mpr (mem_keys_of_lookup hvl), ?_⟩
+  · intro k hk
+    have hk' : k ∈ (variantMap A (some styles) false sing plur (isAmbiguous A (toStyle A ws_s sst) Gen.allStyles)
+        (toStyle A ws_s sst) (toStyle A ws_r rst)).map (·.1) := by
+      have := mem_keys.mp hk
+      simp only [vm, cliVariantMap, List.map_map, List.mem_map, List.mem_filter, Function.comp] at this ⊢
+      obtain ⟨e, ⟨he, _⟩, rfl⟩ := this
+      exact ⟨e, he, rfl⟩
+    simp only [variantMap, Option.isNone_some, Bool.false_and, Bool.false_eq_true, ↓reduceIte, Option.getD_some,
+      buildMap] at hk'
+    rcases keys_buildMap_foldl _ _ hk' with h0 | h0
+    · simp at h0
+    · simp only [List.mem_map] at h0
+      obtain ⟨e, he, rfl⟩ := h0
+      obtain ⟨st', _, m, hm, rfl⟩ := mem_variantRows.mp he
+      simp only [variantModels, Bool.false_eq_true, ↓reduceIte, List.mem_cons, List.not_mem_nil, or_false] at hm
+      subst hm
+      exact ⟨st', toStyle_parse_toStyle hA hS hws hNs hsst hUs st'⟩
+  · simp only [SMap.get, hvl]
+
 end LinePipeline
